@@ -219,6 +219,7 @@ func runC13(c *Ctx) {
 	commandCodec(c, "R3")
 	sharedHandle(c, "R3", p.MustMethod("gossip", "Message", "Encode"), p.MustMethod("gossip", "Message", "Decode"))
 	raftLogCodecHandle(c, "R3")
+	hasherFactoriesAreFresh(c, "R3", []string{"client", "consensus", "server", "cmd", "protocol"})
 	noPooledAlias(c, "R3", []string{"gossip", pkgConsensus, "protocol", "server"})
 	// --- R4
 	for _, k := range []struct{ pkg, typ string }{{"protocol", "MembershipResult"}, {"protocol", "IncrementalResponse"}, {"protocol", "Snapshot"}, {"protocol", "SignedSnapshot"}, {"protocol", "BatchSnapshots"}, {"gossip", "Message"}} {
